@@ -71,7 +71,7 @@ def check_merge(c):
 
 
 # ------------------------------------------------------------------ part 2: statistics()
-OBS = ["SigmaZ", "SigmaX", "SigmaY", "NI", "NIp", "composite", "composite2", "SWAP", "Det"]
+OBS = ["SigmaZ", "SigmaX", "SigmaY", "NI", "NIp", "composite", "composite2", "SWAP", "Det", "Site0x2", "Site0neg"]
 
 
 def make_obs(name, n):
@@ -92,6 +92,15 @@ def make_obs(name, n):
         return -(SigmaX() + NeighbourInteraction(c=1)) * 0.5 + SigmaZ()
     if name == "SWAP":
         return SWAP([0])
+    if name in ("Site0x2", "Site0neg"):
+        class Site0(ObservableBase):
+            """a user observable in the most natural style: the occupation of site 0, returned as a view of the sample tensor"""
+            def __init__(self):
+                self.name = "Site0"
+                self.symbol = "n0"
+            def apply(self, nn_state, samples):
+                return samples[:, 0]
+        return 2 * Site0() if name == "Site0x2" else 1 - Site0()
     class Det(ObservableBase):
         """deterministic test observable: the basis-state index of each sample (plus a row-position independent constant)"""
         def __init__(self):
@@ -106,10 +115,14 @@ def make_obs(name, n):
 @st.composite
 def stat_cases(draw, tier):
     t = draw(st.sampled_from(gen.TYPES))
-    ns = draw(st.integers(2, 30))
+    ns = draw(st.integers(2, 30)) if draw(st.integers(0, 15)) else draw(st.integers(100, 400))     # occasionally many samples / chains
     mode = draw(st.sampled_from(["zero", "one", "divisor", "nondivisor", "larger", "any", "user", "user", "user"]))
+    if ns >= 100 and draw(st.booleans()):
+        mode = "zero" if draw(st.booleans()) else "many"
     if mode == "zero":
         nc = 0
+    elif mode == "many":
+        nc = draw(st.integers(257, 300))
     elif mode == "one":
         nc = 1
     elif mode == "divisor":
@@ -152,8 +165,9 @@ def check_stats(c):
     orig = state.sample
 
     def sample(k, num_samples=1, initial_state=None, overwrite=False):
+        init_vals = None if initial_state is None else initial_state.detach().clone().double()
         r = orig(k=k, num_samples=num_samples, initial_state=initial_state, overwrite=overwrite)
-        calls.append(dict(k=k, num_samples=num_samples, init=initial_state, init_vals=None if initial_state is None else None, res=r, res_vals=r.clone(), overwrite=overwrite))
+        calls.append(dict(k=k, num_samples=num_samples, init=initial_state, init_vals=init_vals, res=r, res_vals=r.clone(), overwrite=overwrite))
         return r
 
     state.sample = sample
@@ -210,6 +224,8 @@ def check_stats(c):
                 require(x["init"] is cl[i - 1]["res"] or (x["init"] is not None and x["init"].data_ptr() == cl[i - 1]["res"].data_ptr()) or
                         (x["init"] is not None and x["init"].shape == cl[i - 1]["res_vals"].shape and torch.equal(x["init"].double(), cl[i - 1]["res_vals"].double()) and steps_positive(c, i)),
                         "chain-continuity", f"draw {i} does not continue the chains of draw {i - 1}")
+                require(x["init_vals"] is not None and x["init_vals"].shape == cl[i - 1]["res_vals"].shape and torch.equal(x["init_vals"], cl[i - 1]["res_vals"].double()),
+                        "chain-continuity:values", f"draw {i} starts from states that differ from what draw {i - 1} returned (the chain states were altered between draws)")
         vals = torch.cat([o.apply(state, x["res_vals"].clone()).double().reshape(-1) for x in cl]).numpy()
         require(r["num_samples"] == total and r["num_samples"] >= ns, "count", f"reported num_samples {r['num_samples']} != chains*draws = {total} (requested {ns})")
         mean, var = float(np.mean(vals)), float(np.var(vals, ddof=1))
